@@ -4,7 +4,8 @@ MANIFEST = {
     "category": "other",
     "text": "Decided part of C04 (the algebraic relations): spectrum = var * spectral_density; spectral_rad_pdf = surface of the (d-1)-sphere of radius r times |density| (zero at r ~ 0 for d > 1, non-negative); rad_fac equals the sphere surfaces for d = 1..4; for Gaussian and Exponential the derivative of spectral_rad_cdf (mechanical differentiation of the extracted term) equals spectral_rad_pdf for d = 1, 2, 3, cdf(0) = 0, ppf is the two-sided inverse of cdf for d = 1, 2, and has_cdf/has_ppf agree with the dimensions for which values are returned; the truncated-power-law densities are the documented superposition of single-scale densities; the six analytic overrides (Gaussian, Exponential, Matern, Integral, HyperSpherical, JBessel; d = 1, 2, 3, k = 0 and k > 0, symbolic shape parameter) return the classical closed-form Fourier transform of their documented correlation (pairs re-derived in contracts/c04.py, trusted as literature table T8; the documented Gaussian-limit approximation of Matern applies for nu > 20 only); the numerical default path is a symmetric Fourier (Hankel) transform of the model's own correlation set up in the package convention a = -1, b = 1 ((2 pi)^-d) with the documented defaults kept for every key the user does not override, through every constructor/setter/dim-change history -- all for symbolic wave numbers, probabilities, length scales, rescale factors. NOT decided by this technique: that the tabulated pairs ARE Fourier pairs (improper integrals of special functions: trusted table), the accuracy of the numerical Hankel transform (external library), and that the pdf integrates to one (limit statements); hence category other. Added after the seeding rounds: integer wave numbers; spectrum with a user var_factor; values of inc_gamma / inc_gamma_low against mpmath (bounded)."
             " Round 7: engine fix: clauses stated before a later precondition are no longer dropped with the path (pdf at wave number 0 in 1-D)."
-            " The inverse radial cdf is finite on [0, 1) (F42 repaired; the np.divide shim now honours where= / out=).",
+            " The inverse radial cdf is finite on [0, 1) (F42 repaired; the np.divide shim now honours where= / out=)."
+            " Matern with nu > 20: density = transform of the Gaussian-limit correlation the model has (F47 repaired); JBessel: tabulated transform for every nu (F50 repaired; the contract no longer copies the cap of the code).",
     "level_note": "floats as reals; erf/erfinv/arctan/tan/exp/log/sqrt/pow as uninterpreted functions with ground facts and logged hints (T4); derivative table T4 incl. erf and arctan; generic model with uninterpreted density for the model-independent relations; Fourier-pair core of C04: not applicable to contract-based verification (listed under residues).",
     "technique": "contract-based deductive verification: symbolic execution of the real Python methods against sidecar postconditions from the docstrings, VCs discharged by z3/cvc5 with instantiated axiom hints",
 }
